@@ -95,6 +95,8 @@ type Agent struct {
 	// goes to disconnected.
 	disconnectedTimeout         time.Duration
 	disconnectedTimeoutExplicit bool
+	// checkingEpoch counts the transitions into ConnectionStateChecking (start, Restart).
+	checkingEpoch uint64
 
 	// How long connectivity checks can fail before the ICE Agent
 	// goes to failed
@@ -685,6 +687,7 @@ func (a *Agent) startConnectivityChecks(isControlling bool, remoteUfrag, remoteP
 
 func (a *Agent) connectivityChecks() { //nolint:cyclop
 	lastConnectionState := ConnectionState(0)
+	lastCheckingEpoch := uint64(0)
 	checkingDuration := time.Time{}
 	checkingTimeout := a.initialCheckingTimeout()
 
@@ -700,10 +703,13 @@ func (a *Agent) connectivityChecks() { //nolint:cyclop
 				// In the future it may be restarted though
 				return
 			case ConnectionStateChecking:
-				// We have just entered checking for the first time so update our checking timer
-				if lastConnectionState != a.connectionState {
+				// We have just entered checking for the first time so update our checking timer.
+				// The state may have left Checking and come back (connect, then Restart) between two
+				// ticks, which the state seen by the previous tick cannot tell: compare the epoch too.
+				if lastConnectionState != a.connectionState || lastCheckingEpoch != a.checkingEpoch {
 					checkingDuration = time.Now()
 				}
+				lastCheckingEpoch = a.checkingEpoch
 
 				// The initial checking deadline has elapsed, so set the connection to Failed.
 				if checkingTimeout != 0 && time.Since(checkingDuration) > checkingTimeout {
@@ -789,6 +795,10 @@ func (a *Agent) updateConnectionState(newState ConnectionState) {
 			a.pendingBindingRequests = make([]bindingRequest, 0)
 			a.setSelectedPair(nil)
 			a.deleteAllCandidates()
+		}
+
+		if newState == ConnectionStateChecking {
+			a.checkingEpoch++
 		}
 
 		a.log.Infof("Setting new connection state: %s", newState)
